@@ -81,6 +81,7 @@ package bcl
 //@   loop 2 invariant index: 0 - 1 <= rangeindex && rangeindex < len(vm.result)
 //@   loop 2 invariant filter_count: len(blocks) == cntType(elems(vm.result), rangeindex + 1, blockType)
 //@   loop 2 invariant filter_members: forall j int :: 0 <= j && j < len(blocks) ==> blocks[j].Type == blockType
+//@   loop 2 invariant filter_none_yet: len(blocks) == 0 ==> (forall k int :: 0 <= k && k <= rangeindex ==> vm.result[k].Type != blockType)
 //@   loop 2 invariant filter_first: len(blocks) > 0 ==> (exists i int :: 0 <= i && i <= rangeindex && vm.result[i] == blocks[0] && (forall k int :: 0 <= k && k < i ==> vm.result[k].Type != blockType))
 //@   loop 2 invariant filter_last: len(blocks) > 0 ==> (exists m int :: 0 <= m && m <= rangeindex && vm.result[m] == blocks[len(blocks)-1] && vm.result[m].Type == blockType && (forall k int :: m < k && k <= rangeindex ==> vm.result[k].Type != blockType))
 //@   loop 2 invariant results_kept: forall i int :: 0 <= i && i < len(vm.result) ==> vm.result[i] == prev(vm.result[i])
